@@ -33,7 +33,7 @@ claim('C11', 'table agreement: precedence/category/associativity tables, reducti
 claim('C04', 'sibling cross-check of the folding functions + integer operation audit (typed HIR)',
       'Decides structural necessary conditions of "compile-time evaluation agrees with run time and never crashes": every numeric arm of ValueObj::try_<op> applies <op>, '
       'with its operands in the order of the pattern (every alternative of an or-pattern); '
-      'Context::eval_bin dispatches OpKind::X to try_x; no trapping or truncating integer operation in those arms (each instance reported, the 51 present today are known findings).',
+      'Context::eval_bin dispatches OpKind::X to try_x; no trapping or truncating integer operation in those arms (each instance reported; the 51 present at the start were repaired in a2939fdd); `//` and `%` go through helpers that are interpreted and compared with Python on a grid (C04-py).',
       'Float rounding and non-arithmetic constant expressions are not decided. Operand types come from rustc typeck.',
       'DESIGN.md §3 C04')
 claim('C21', 'coupled-state rule over every ModuleGraph method (who writes `graph` must write `index`); who-may-write + dominance rule for dependency edges',
@@ -67,7 +67,7 @@ claim('C25', 'table agreement Rust<->Python (ADT discriminants, typed HIR, pytho
       'The correspondence between inputs and results of DummyVM::eval over histories is not decided.',
       'DESIGN.md §3 C25')
 claim('C27', 'declaration-table scan of lib/pystd/**/*.d.er against dir(module) of CPython 3.7-3.13 and typeshed stubs (all platform branches)',
-      'Decides the property as stated, exhaustively over every top-level declaration of every bundled declaration file (30 misspelt / wrongly mapped names are known findings).',
+      'Decides the property as stated, exhaustively over every top-level declaration of every bundled declaration file (23 misspelt / wrongly mapped names were repaired, 7 remain as known findings).',
       'Trusts the frozen dir() tables in ref/ (re-dumped live in the thorough tier) and the typeshed copy shipped in the tooling venv; nested class members are not checked.',
       'DESIGN.md §3 C27')
 
@@ -98,14 +98,14 @@ claim('C14', 'abstract interpretation of the code generator per target version o
       'DESIGN.md §3 C14')
 
 claim('C08', 'typestate analysis of impl Lexer over structured HIR (characters known available; consumed vs appended characters; units of column arithmetic; indent/dedent pairing)',
-      'Decides: no consume().unwrap() without a character known available (totality at end of input), the column advance of every escape arm (21 known findings: escapes drift), '
+      'Decides: no consume().unwrap() without a character known available (totality at end of input), the column advance of every escape arm (appended characters + the difference recorded by push_escaped = consumed characters; the 21 drifting arms present at the start were repaired in a6637b08), '
       'column arithmetic in characters not bytes, Indent/Dedent pairing with the indent stack and EOF only on an empty stack.',
       'Termination of the token loop and the columns of multi-line tokens are not decided. Entry contexts of lex_num_dot / lex_exponent are frozen from the call sites.',
       'DESIGN.md §3 C08')
 
 claim('C24', 'shares the lexer column rules (consumed vs appended characters per escape arm; column arithmetic in characters)',
       'Decides the clause "locations after string escapes on the same line": diagnostic locations are concatenations of token locations, so token columns must be faithful '
-      '(21 escape arms drift today: known findings).',
+      '(the 21 drifting escape arms present at the start were repaired in a6637b08).',
       'That a location covers the construct it names and that rendering never crashes are not decided (format_context\'s unchecked `ln_end - ln_begin` is listed as undecided).',
       'DESIGN.md §3 C24')
 claim('C28', 'structural rules on els::util::pos_to_byte_index and FileCache::incremental_update; coupled-state rule cache text / VFS',
@@ -143,7 +143,7 @@ claim('C32', 'table rule over the resolved arms of Predicate::invert / and / or 
 
 claim('C17', 'table agreement across crates: characters produced by the lexer escape arms vs the replace chain of PyScriptGenerator::escape_str; typestate rule on the fresh-name counter',
       'Decides the clause "string literals with arbitrary contents": every unescaped character that cannot stand raw in a Python literal must be escaped by the transpiler '
-      '(2 known findings: `"` and `\\`); and that generated helper names are unique: the fresh-name counter is incremented before anything that can take the same name template.',
+      '(`"` and `\\` were unescaped at the start: repaired in a4bea8d6); and that generated helper names are unique: the fresh-name counter is incremented before anything that can take the same name template.',
       'Behavioural equivalence of the transpiled script and the compiled bytecode is not decided.',
       'DESIGN.md §3 C17')
 claim('C18', 'flow rule inside JsonGenerator: value / literal text must pass a JSON encoder before reaching the output',
